@@ -22,6 +22,9 @@ EXTENDS Integers, Sequences, FiniteSets, TLC
 CONSTANTS Names,            \* storage names, e.g. {"field", "f2"}
           MaxBuf,           \* bound on the number of buffers
           HasPipeline,      \* the field object carries a mean / trend / normalizer
+          NormalField,      \* constant mean, no trend, default normalizer: the object holds a plain normal field
+          TKinds,           \* transformations offered by Field.transform
+          NormalKinds,      \* those that require a normal field unless they process the field themselves
           InPlacePipeline   \* TRUE: pre/post-processing arithmetic writes into its input (the defect)
 
 VARIABLES heap,     \* buffer id -> version
@@ -63,9 +66,11 @@ FieldCall(n, p) ==
   /\ target' = None
   /\ op' = [name |-> "FieldCall", store |-> n, process |-> p]
 
-(* srf.transform(method, field = src, store = TRUE | n | FALSE, process = p) *)
-Transform(src, st, p) ==
+(* srf.transform(k, field = src, store = TRUE | n | FALSE, process = p); all kinds have the same
+   storage discipline (a new array is computed from the source), they differ in their precondition *)
+Transform(src, st, p, k) ==
   /\ stored[src] # None /\ nbuf < MaxBuf
+  /\ (k \in NormalKinds /\ ~p => NormalField)
   /\ LET inb == stored[src]
          outb == New
          dest == IF st = "same" THEN src ELSE st
@@ -76,12 +81,12 @@ Transform(src, st, p) ==
         /\ stored' = IF st = "none" THEN stored ELSE [stored EXCEPT ![dest] = outb]
         /\ handed' = handed \cup {<<outb, heap[outb]>>}
         /\ target' = IF st = "same" THEN inb ELSE None
-  /\ op' = [name |-> "Transform", src |-> src, store |-> st, process |-> p]
+  /\ op' = [name |-> "Transform", src |-> src, store |-> st, process |-> p, kind |-> k]
 
 Next ==
   \/ \E n \in Names \cup {"none"} : Generate(n)
   \/ \E n \in Names \cup {"none"}, p \in BOOLEAN : FieldCall(n, p)
-  \/ \E src \in Names, st \in Names \cup {"same", "none"}, p \in BOOLEAN : Transform(src, st, p)
+  \/ \E src \in Names, st \in Names \cup {"same", "none"}, p \in BOOLEAN, k \in TKinds : Transform(src, st, p, k)
 
 Spec == Init /\ [][Next]_vars
 
